@@ -20,7 +20,7 @@ def execute(c):
         src, dst, rr = plan(c)
         ev["o"] = {"roi_src": roi4(rr.roi_src), "roi_dst": roi4(rr.roi_dst), "paste_ok": bool(rr.paste_ok),
                    "shrink": int(rr.read_shrink) if float(rr.read_shrink).is_integer() else -1}
-        if rr.paste_ok and rr.read_shrink == 1:
+        if rr.paste_ok and rr.read_shrink == 1 and not c.get("xcrs"):
             k = (c["A"][2] // 15 + c["A"][5] // 15 + c["hs"] + c["wd"]) % len(DTYPES)
             dt = np.dtype(DTYPES[k])
             ids = 1 + np.arange(c["hs"] * c["ws"], dtype="int64").reshape(c["hs"], c["ws"])      # unique ids 1..36
@@ -62,6 +62,8 @@ def run(ctx):
     cases.sort(key=lambda c: json.dumps(c, sort_keys=True))
     total = len(cases)
     # candidates for the paste path (tight options, scale+translation) are all kept; the rest is sampled (soundness of paste_ok = False is C03's business)
+    xc = [c for c in cases if c.get("xcrs")]
+    cases = [c for c in cases if not c.get("xcrs")]
     cand = [c for c in cases if c["A"][1] == 0 and c["pad"] in ([], [0]) and c["align"] == [] and abs(c["A"][0]) == abs(c["A"][4]) and abs(c["A"][0]) % 960 == 0]
     # families probing the tolerances themselves (scales next to an integer, tiny shear, caller-supplied tolerances) are sampled on their own
     def special(c):
@@ -70,7 +72,7 @@ def run(ctx):
     spec = [c for c in cases if special(c) and json.dumps(c, sort_keys=True) not in cs]
     ss = set(json.dumps(c, sort_keys=True) for c in spec)
     rest = [c for c in cases if json.dumps(c, sort_keys=True) not in cs and json.dumps(c, sort_keys=True) not in ss]
-    cases = ctx.subsample(cand, 9000 if q else 120000) + ctx.subsample(spec, 3000 if q else 60000) + ctx.subsample(rest, 4000 if q else 60000)
+    cases = ctx.subsample(cand, 9000 if q else 120000) + ctx.subsample(spec, 3000 if q else 60000) + ctx.subsample(rest, 4000 if q else 60000) + xc
     events = ctx.pmap(execute, cases)
     verdicts = _validate(ctx, events)
     for ev, v in zip(events, verdicts):
